@@ -150,12 +150,19 @@ def forIdx {σ : Type} (l : List Nat) (f : σ → Nat → M σ) (s : σ) : M σ 
     | .error e => .error e
     | .ok s' => forIdx rest f s'
 
+/-- the result is printed, not used: only a fault matters -/
+def ignore {α : Type} (x : M α) : M Unit :=
+  match x with
+  | .error f => .error f
+  | .ok _ => pure ()
+
 /-- `for j < get_notes_num(): get_note(j, …)` + the read of every descriptor byte in `dump::note` -/
 def allNotes (e : Enc) (src : NoteSrc) (pos : List (BitVec 64)) : M Unit :=
-  forIdx (List.range (Note.num pos).toNat)
-    (fun _ j => match Note.get e src pos (BitVec.ofNat 32 j) with
-      | .error f => .error f
-      | .ok _ => pure ()) ()
+  forIdx (List.range (Note.num pos).toNat) (fun _ j => ignore (Note.get e src pos (BitVec.ofNat 32 j))) ()
+
+/-- `for i < get_symbols_num(): get_symbol(i, …)` -/
+def allSyms (t : SymTab) (n : Nat) : M Unit :=
+  forIdx (List.range n) (fun _ k => ignore (getSym t (BitVec.ofNat 64 k))) ()
 
 /-- `dump::notes`, one section -/
 def dumpNoteSec (o : Obj) (i : Nat) : M Obj :=
@@ -245,10 +252,7 @@ def dumpSymSec (o : Obj) (i : Nat) : M Obj :=
         match t.symbolsNum with
         | .error f => .error f
         | .ok n =>
-          match forIdx (List.range n.toNat)
-              (fun _ k => match getSym t (BitVec.ofNat 64 k) with
-                | .error f => .error f
-                | .ok _ => pure ()) () with
+          match allSyms t n.toNat with
           | .error f => .error f
           | .ok _ => pure o1
     else pure o
